@@ -333,6 +333,9 @@ func runRepair(c *kit.Ctx) {
 		for _, a := range anchors {
 			for _, d := range deltas {
 				for _, pooled := range []bool{true, false} {
+					if !pooled && !c.Thorough() && d != 0 && d != -time.Nanosecond {
+						continue
+					}
 					x := baseRepair()
 					x.Policies, x.Conds, x.Anchor, x.Delta = k.pol, k.conds, a, d
 					if a == -1 {
